@@ -68,7 +68,9 @@ def run(chk, tier):
     chk.floor("R-GPNEXT", "imported identifier stores", ngp, 1)
     import uninit
     uninit.wire(chk, P, ["topology-xml.c", "topology-xml-nolibxml.c", "topology-xml-libxml.c"], 5)
-    chk.decided += ["no local allocation of the XML import/diff code is dropped on a path to a return (leak on rarely taken branches, e.g. under NO_CPUKINDS)",
+    chk.decided += ['an imported object identifier keeps next_gp_index above it',
+                    'a local filled by a fallible reader is not read when the reader failed',
+                    "no local allocation of the XML import/diff code is dropped on a path to a return (leak on rarely taken branches, e.g. under NO_CPUKINDS)",
                     'the XML import/diff code never uses a pointer after releasing it (failure paths included)',
                     "a failed hwloc_topology_load() does not leave the topology in the LOADING state (it can be configured and loaded again)",
                     "assertions on scalar parameters of functions called by the XML import cannot fail on values taken from the file (memattr ids)",
